@@ -19,6 +19,14 @@ or executed, there is no dynamic fallback):
   `while a: if not b: break` all look the same;
 * a loop that filters and appends and a list comprehension are read into the same (target, iterable,
   conditions, element) form;
+* reduce_to_section is read as a TABLE: for every ISA name the code compares `isa` with (and for one name it
+  does not know) and for every combination found / not found of the two indices, the path conditions are evaluated
+  (three-valued: what does not evaluate excludes nothing) and the returns that remain must slice the kernel with the
+  finder's index or the default accordingly.  if/elif/else, a guard clause raising first and a plain else, `in (..)`,
+  De Morgan forms, nested negative tests, conditional expressions, early returns instead of rebinding start/end are
+  the same table; an else branch that serves unknown names, swapped finders or another sentinel are not;
+* calls of PRIVATE module functions / methods (underscore names) are replaced by the helper's statements before a
+  function is read (astutil_G5.inline_helpers), so "extract function" does not show;
 * parameters of find_marked_section get their role from how they are USED (compared with normalize_imd(..),
   passed to match_bytes, ...), not from their names; the loop index, the line variable, the names of the
   results are taken from the code.
@@ -37,8 +45,25 @@ from translate import TranslateError, generator, parse, find_func, txt, txt_list
 
 sys.path.insert(0, os.path.dirname(os.path.abspath(__file__)))
 import astutil_G2 as U  # noqa: E402
+import astutil_G5 as G5  # noqa: E402
 from astutil_G2 import (Paths, State, atoms, ceval, cmp_atom, const_of, dump, fail, is_unpack, linear,  # noqa: E402
                         lin_offset, method_call, name_call, subst, sym, sym_cmp, walk_exprs)
+
+
+def _func(tree, name, cls=None):
+    """the function, with the calls of PRIVATE helpers (underscore names; for a method also static methods of
+    its class) replaced by the helper's statements (astutil_G5.inline_helpers, two levels): code moved into a
+    helper by an "extract function" refactoring is read as if it still stood in the function.  Public functions
+    (find_marked_kernel_*, match_bytes, get_line_range, parse_line, ...) are part of what the model names and
+    are never substituted."""
+    fn = find_func(tree, name, cls)
+    if cls is None:
+        res = G5.module_resolver(tree, fn, only=lambda n, f: n.startswith("_") and not n.startswith("__"))
+    else:
+        cnode = [n for n in ast.walk(tree) if isinstance(n, ast.ClassDef) and n.name == cls][0]
+        res = G5.class_resolver([cnode], fn, only=G5.is_private_helper)
+    new, used = G5.inline_helpers(fn, res, depth=2)
+    return new if used else fn
 
 
 def _int_list_lean(vs):
@@ -106,7 +131,7 @@ def _indexed_loop(target, it, seq_ok):
 def _fms_shape(tree, menv):
     """Index arithmetic, operand indices and parameter roles of find_marked_section."""
     what = "find_marked_section"
-    fn = find_func(tree, what)
+    fn = _func(tree, what)
     params, defaults = U.func_params(fn)
     env = U.func_env(fn, menv)
     # the statements before the loop, the loop, the return
@@ -283,7 +308,7 @@ def _fms_shape(tree, menv):
 def _marker_call(tree, menv, fname, fms):
     """Values of the arguments of the find_marked_section(...) call inside `fname`, by role."""
     _, roles, params, defaults = fms
-    fn = find_func(tree, fname)
+    fn = _func(tree, fname)
     env = U.func_env(fn, menv)
     px = Paths()
     px.run(fn.body)
@@ -344,7 +369,7 @@ def _loop_facts(loop, entry):
 
 
 def _match_bytes(tree, menv):
-    fn = find_func(tree, "match_bytes")
+    fn = _func(tree, "match_bytes")
     params, _ = U.func_params(fn)
     if len(params) != 3:
         raise TranslateError("match_bytes: expected the parameters (lines, index, byte_list)")
@@ -448,7 +473,7 @@ def _const_is(node, env, value):
 # ------------------------------------------------------------------ marker_utils.py: reduce_to_section
 def _reduce(tree, menv):
     what = "reduce_to_section"
-    fn = find_func(tree, what)
+    fn = _func(tree, what)
     params, _ = U.func_params(fn)
     if len(params) != 2:
         raise TranslateError("reduce_to_section: expected the parameters (kernel, isa)")
@@ -461,7 +486,6 @@ def _reduce(tree, menv):
     rets = [e for e in px.events if e.kind == "return"]
     if not rets:
         raise TranslateError("reduce_to_section: no return")
-    isa_forms = {sym(p_isa): False, sym("%s.lower()" % p_isa): True}
     len_kernel = sym("len(%s)" % p_kernel)
     out = {}
     callee_of, combos = {}, {}
@@ -477,54 +501,130 @@ def _reduce(tree, menv):
             return call.func.id
         return None
 
-    for e in rets:
-        v = e.value
-        if not (isinstance(v, ast.Subscript) and isinstance(v.slice, ast.Slice) and _is_name(v.value, p_kernel)
-                and v.slice.step is None and v.slice.lower is not None):
-            raise TranslateError("reduce_to_section: `return kernel[start:end]` not found (line %s)" % e.node.lineno)
-        isa = None
-        for at in e.conds:
-            for l, r in sym_cmp(at, ast.Eq):
-                if dump(l) in isa_forms:
-                    if isa is not None:
-                        raise TranslateError("reduce_to_section: two ISA tests on one path")
-                    isa = const_of(r, env, str, "reduce_to_section isa")
-                    _merge(out, "lowered", isa_forms[dump(l)], what)
-        if isa is None:
-            raise TranslateError("reduce_to_section: a return is reached without an `isa == <name>` test")
-        sentinel_eq, sentinel_ne = {}, {}
-        for at in e.conds:
-            for op, dst in ((ast.Eq, sentinel_eq), (ast.NotEq, sentinel_ne)):
-                for l, r in sym_cmp(at, op):
+    # ---- which ISA value reaches which return: CASE SPLIT over the values the code distinguishes.
+    # Every path condition is evaluated with `isa` (or `isa.lower()`) replaced by each string the code compares it
+    # with, and by one string it does not know; a condition that does not evaluate is "unknown" and excludes
+    # nothing.  So if/elif/else, a guard clause that raises first + plain else, `in (..)`, `not (a or b)`,
+    # conditional expressions and De Morgan forms all give the same table  value -> reachable returns.
+    all_conds = [at for e in px.events for at in e.conds]
+    seen_forms = set()
+    for node, _ in all_conds:
+        for n in ast.walk(node):
+            if dump(n) == sym("%s.lower()" % p_isa):
+                seen_forms.add(True)
+        bare = sum(1 for n in ast.walk(node) if _is_name(n, p_isa))
+        low = sum(1 for n in ast.walk(node) if dump(n) == sym("%s.lower()" % p_isa))
+        if bare > low:
+            seen_forms.add(False)
+    if len(seen_forms) != 1:
+        raise TranslateError("reduce_to_section: a return is reached without an `isa == <name>` test"
+                             if not seen_forms else "reduce_to_section: isa is tested both lower-cased and as given")
+    lowered = seen_forms.pop()
+    out["lowered"] = lowered
+    form = sym("%s.lower()" % p_isa) if lowered else sym(p_isa)
+
+    class _Put(ast.NodeTransformer):
+        def __init__(self, value):
+            self.value = value
+
+        def visit(self, node):
+            if isinstance(node, ast.expr) and dump(node) == form:
+                return ast.Constant(value=self.value)
+            return self.generic_visit(node)
+
+    values = []
+    for node, _ in all_conds:
+        for n in ast.walk(node):
+            if isinstance(n, ast.Compare):
+                sides = [n.left] + list(n.comparators)
+                if any(dump(x) == form for x in sides):
+                    for x in sides:
+                        try:
+                            c = ceval(x, env)
+                        except TranslateError:
+                            continue
+                        for y in (c if isinstance(c, (list, tuple, set, frozenset)) else [c]):
+                            if isinstance(y, str) and y not in values:
+                                values.append(y)
+    OTHER = "\0some other isa"
+    if not values:
+        raise TranslateError("reduce_to_section: a return is reached without an `isa == <name>` test")
+
+    import copy as _copy
+    sentinels = {0: set(), 1: set()}
+
+    def truth(at, value, world):
+        """True / False / None (unknown) of one path fact when isa is `value` and `world[k]` says whether index k
+        of the finder's result is the 'not found' sentinel"""
+        node, pol = at
+
+        def atom(n):
+            if isinstance(n, ast.Compare) and len(n.ops) == 1 and isinstance(n.ops[0], (ast.Eq, ast.NotEq)):
+                for a, b in ((n.left, n.comparators[0]), (n.comparators[0], n.left)):
                     for k in (0, 1):
-                        c = raw(l, k)
-                        if c is not None:
-                            dst[k] = (c, const_of(r, env, int, "reduce_to_section sentinel"))
-        flags = []
-        for k, bound, key in ((0, v.slice.lower, "sent_start"), (1, v.slice.upper, "sent_end")):
-            c = raw(bound, k) if bound is not None else None
-            if c is not None:
-                if k not in sentinel_ne or sentinel_ne[k][0] != c:
-                    raise TranslateError("reduce_to_section: a found index is used without the `== -1` test")
-                _merge(out, key, sentinel_ne[k][1], what)
-                flags.append(False)
-            else:
-                if k == 0:
-                    dflt_ok = _const_is(bound, env, 0)
-                else:
-                    dflt_ok = bound is None or _const_is(bound, env, None) or dump(bound) == len_kernel
-                if not dflt_ok:
-                    raise TranslateError("reduce_to_section: defaults are not 0 / len(kernel)")
-                if k not in sentinel_eq:
-                    raise TranslateError("reduce_to_section: a default is used without the `== -1` test")
-                c = sentinel_eq[k][0]
-                _merge(out, key, sentinel_eq[k][1], what)
-                flags.append(True)
-            _merge(callee_of, isa, c, what)
-        combos.setdefault(isa, set()).add(tuple(flags))
-    for isa, cs in combos.items():
-        if cs != {(False, False), (False, True), (True, False), (True, True)}:
-            raise TranslateError("reduce_to_section: for %r not every combination of found / default is reachable" % isa)
+                        if raw(a, k) is not None:
+                            sentinels[k].add(const_of(b, env, int, "reduce_to_section sentinel"))
+                            if world is None:
+                                raise TranslateError("unknown")
+                            return world[k] == isinstance(n.ops[0], ast.Eq)
+            if isinstance(n, (ast.Compare, ast.Call)) and any(dump(x) == form for x in ast.walk(n)) \
+                    and not any(isinstance(x, (ast.BoolOp, ast.IfExp)) for x in ast.walk(n)):
+                return bool(ceval(_Put(value).visit(_copy.deepcopy(n)), env))
+            return None
+
+        try:
+            return G5.bool_eval(node, atom) == pol
+        except TranslateError:
+            return None
+
+    def feasible(conds, value, world=None):
+        return all(truth(at, value, world) is not False for at in conds)
+
+    def is_default(bound, k):
+        if k == 0:
+            return bound is not None and _const_is(bound, env, 0)
+        return bound is None or _const_is(bound, env, None) or dump(bound) == len_kernel
+
+    for e in rets:
+        if feasible(e.conds, OTHER):
+            raise TranslateError("reduce_to_section: a return is reached without an `isa == <name>` test")
+        reach = [x for x in values if feasible(e.conds, x)]
+        if len(reach) > 1:
+            raise TranslateError("reduce_to_section: one return path serves several ISA names: %r" % reach)
+    # ---- per ISA name and per combination found / not found: what is returned
+    for isa in values:
+        for world in ((False, False), (False, True), (True, False), (True, True)):
+            live = [e for e in rets if feasible(e.conds, isa, world)]
+            if not live:
+                if not any(feasible(e.conds, isa) for e in rets):
+                    break       # a name that is only rejected (compared with, never served)
+                raise TranslateError("reduce_to_section: for %r not every combination of found / default is reachable" % isa)
+            for e in live:
+                v = e.value
+                if not (isinstance(v, ast.Subscript) and isinstance(v.slice, ast.Slice) and _is_name(v.value, p_kernel)
+                        and v.slice.step is None):
+                    raise TranslateError("reduce_to_section: `return kernel[start:end]` not found (line %s)" % e.node.lineno)
+                for k, bound in ((0, v.slice.lower), (1, v.slice.upper)):
+                    if world[k]:
+                        if not is_default(bound, k):
+                            raise TranslateError("reduce_to_section: defaults are not 0 / len(kernel)"
+                                                 if raw(bound, k) is None else
+                                                 "reduce_to_section: a found index is used without the `== -1` test")
+                    else:
+                        c = raw(bound, k) if bound is not None else None
+                        if c is None:
+                            raise TranslateError("reduce_to_section: a default is used without the `== -1` test"
+                                                 if is_default(bound, k) else
+                                                 "reduce_to_section: `return kernel[start:end]` not found (line %s)" % e.node.lineno)
+                        _merge(callee_of, isa, c, what)
+        else:
+            if isa not in callee_of:
+                raise TranslateError("reduce_to_section: the finder used for %r is not determined" % isa)
+    for k, key in ((0, "sent_start"), (1, "sent_end")):
+        if len(sentinels[k]) != 1:
+            raise TranslateError("reduce_to_section: the `== -1` test of the %s index not found (or several values: %r)"
+                                 % ("start" if k == 0 else "end", sorted(sentinels[k])))
+        out[key] = sentinels[k].pop()
     if len(callee_of) != 2:
         raise TranslateError("reduce_to_section: expected two ISA branches, got %r" % sorted(callee_of))
     return sorted(callee_of.items()), out["lowered"], out["sent_start"], out["sent_end"]
@@ -562,7 +662,7 @@ def _append_loop(loop, entry):
 # ------------------------------------------------------------------ osaca.py
 def _line_range(tree, menv):
     what = "get_line_range"
-    fn = find_func(tree, what)
+    fn = _func(tree, what)
     params, _ = U.func_params(fn)
     if len(params) != 1:
         raise TranslateError("get_line_range: expected one parameter")
@@ -629,7 +729,7 @@ def _line_range(tree, menv):
     if len(range_sep) != 1:
         raise TranslateError("get_line_range: range separator is not a single character")
     # inspect: kernel = [line for line in parsed_code if line.line_number in get_line_range(args.lines)]
-    insp = find_func(tree, "inspect")
+    insp = _func(tree, "inspect")
     sel = False
     cands = []
     for node in ast.walk(insp):
@@ -661,7 +761,7 @@ def _line_range(tree, menv):
 # ------------------------------------------------------------------ base_parser.py
 def _parse_file(tree, menv):
     what = "parse_file"
-    fn = find_func(tree, what, "BaseParser")
+    fn = _func(tree, what, "BaseParser")
     params, defaults = U.func_params(fn)
     if len(params) < 2:
         raise TranslateError("parse_file: expected (self, file_content, ...)")
@@ -749,7 +849,9 @@ def _parse_file(tree, menv):
     return sep, first, start_default
 
 
-@generator("MarkerConsts", ["osaca/semantics/marker_utils.py", "osaca/osaca.py", "osaca/parser/base_parser.py"])
+@generator("MarkerConsts", ["osaca/semantics/marker_utils.py", "osaca/osaca.py", "osaca/parser/base_parser.py",
+                            "../verif-self:tools/gen/markerconsts.py", "../verif-self:tools/gen/astutil_G2.py",
+                            "../verif-self:tools/gen/astutil_G5.py"])
 def gen_markerconsts():
     tm = parse("osaca/semantics/marker_utils.py")
     menv = U.module_env(tm)
